@@ -16,6 +16,9 @@ def main():
         subprocess.check_call(["rsync", "-a", "/repo/", tmp + "/repo/"])
         r = subprocess.run(["git", "-C", tmp + "/repo", "apply", "--whitespace=nowarn", patch], capture_output=True, text=True)
         if r.returncode != 0:
+            # a later fix: commit may have touched neighbouring lines: try a three-way merge
+            r = subprocess.run(["git", "-C", tmp + "/repo", "apply", "--3way", "--whitespace=nowarn", patch], capture_output=True, text=True)
+        if r.returncode != 0:
             print("PATCH-DOES-NOT-APPLY", r.stderr[:500]); return 2
         env = dict(os.environ, VERIF_REPO=tmp + "/repo", VERIF_OUT_DIR=tmp + "/out")
         for p in props:
